@@ -35,18 +35,14 @@ Fixpoint failing_from (i : nat) (l : list bool) : list nat :=
   match l with [] => [] | b :: t => if b then failing_from (S i) t else i :: failing_from (S i) t end.
 Definition failing (l : list bool) : list nat := failing_from 0 l.
 (* the effects along the first successful path with cache outcome hit *)
-Fixpoint witness (hit : bool) (fuel : nat) (t : tree) : option (list eff) :=
-  match fuel with
-  | 0 => None
-  | S n =>
-    match t with
-    | Leaf (LVal _ _) => Some []
-    | Leaf _ => None
-    | Eff (ECacheLookup f h) k => if Bool.eqb h hit then option_map (cons (ECacheLookup f h)) (witness hit n k) else None
-    | Eff e k => option_map (cons e) (witness hit n k)
-    | Choice a b => match witness hit n a with Some tr => Some tr | None => witness hit n b end
-    | Loop _ k => witness hit n k
-    end
+Fixpoint witness (hit : bool) (t : tree) : option (list eff) :=
+  match t with
+  | Leaf (LVal _ _) => Some []
+  | Leaf _ => None
+  | Eff (ECacheLookup f h) k => if Bool.eqb h hit then option_map (cons (ECacheLookup f h)) (witness hit k) else None
+  | Eff e k => option_map (cons e) (witness hit k)
+  | Choice a b => match witness hit a with Some tr => Some tr | None => witness hit b end
+  | Loop _ k => witness hit k
   end.
 Definition tok (e : eff) : list string :=
   match e with
@@ -67,7 +63,7 @@ Definition entry (name : string) : tree :=
   else if String.eqb name "tensor_method:llvm" then entry_tensor_method prog Llvm
   else entry_evaluate prog name.
 Definition agrees (name : string) (hit : bool) (real : list string) : bool :=
-  match witness hit 2000 (entry name) with
+  match witness hit (entry name) with
   | Some tr => strs_eq (flat_map tok tr) real
   | None => false
   end.
